@@ -647,7 +647,7 @@ fn huge_via_child(w: &World, kind: &str, obs: &mut Obs) {
     bump(&mut obs.counters, "huge_circuits_run_in_child");
     let Ok(exe) = std::env::current_exe() else { return };
     let single = World { prior: vec![], ..w.clone() };
-    let Ok(mut child) = std::process::Command::new(exe)
+    let Ok(mut child) = child_command(exe)
         .arg("c16-child")
         .env("RUST_BACKTRACE", "0")
         .stdin(std::process::Stdio::piped())
@@ -1487,7 +1487,7 @@ fn judge_plain(items: &[(World, CircuitType, bool)], counters: &mut BTreeMap<Str
     let mut spawns = 0;
     while from < items.len() && spawns < 50 {
         spawns += 1;
-        let mut cmd = std::process::Command::new(&exe);
+        let mut cmd = child_command(&exe);
         cmd.stdin(std::process::Stdio::piped()).stdout(std::process::Stdio::piped()).stderr(std::process::Stdio::null());
         unsafe {
             use std::os::unix::process::CommandExt;
